@@ -48,6 +48,21 @@ def impl_one(s):
             bad = "canonical text %r of %r re-encodes to %r" % (e, s, q2.encode())
     except Exception as ex:
         bad = "%r canonicalises to %r which the parser rejects (%s)" % (s, e, type(ex).__name__)
+    if bad is None:
+        # the canonical text denotes the same query however often it is parsed — also after an earlier parse result was extended in place
+        # through the builder API (parse results are mutable objects; a parser that hands out shared objects would change its own answers)
+        try:
+            before = wire.ser(q2, pos=False)
+            q3 = P.parse(e)
+            try:
+                q3.with_action("zzz", "1")
+            except Exception:
+                q3.segments.append(P.TransformQuerySegment(query=[P.ActionRequest("zzz")]))
+            q4 = P.parse(e)
+            if q4 is q3 or wire.ser(q4, pos=False) != before:
+                bad = "parsing the canonical text %r again after an earlier parse result was extended in place gives a different query" % (e,)
+        except Exception as ex:
+            bad = "re-parsing the canonical text %r raised %s" % (e, type(ex).__name__)
     return ans, e, bad
 
 
